@@ -672,7 +672,9 @@ class NullWriter(Writer):
         return 0
 
     def isatty(self) -> bool:
-        return True
+        # Not a terminal: answering True made NULL_PRINTER a colour printer, whose creation at import time calls
+        # colorama.init() - for a redirected stdout that installs a wrapper which strips the escapes `--color` asks for
+        return False
 
     def flush(self):
         pass
